@@ -1,6 +1,16 @@
 # Human-written level texts per claimed property (used by tools/gen_manifest.py).
 HOOK_COMMITS = []
 META = {
+    "C03": {
+        "text": "Bounded model checking under a Dolev-Yao attacker: every combination of forged author fields is built with the real ipfs-log and delivered by both routes to a replica running the real Sync/replicator/Join/Verify/CanAppend code; plus symbolic-list unit checks of all three controllers. One class is a listed known finding (writer's id named in an entry signed by someone else); its complement is verified.",
+        "design_ref": "DESIGN.md §2 C03, §4",
+        "note": "Trusted: perfect symbolic cryptography, gosym. Known finding C03-id-not-bound-to-key is reported (KNOWN-FINDING line) and carved out.",
+    },
+    "C04": {
+        "text": "Bounded model checking of the hash check in Sync, the replicator's fetch-by-hash and Join's log-id / signature verification: every single-field mutation (new clock time fully symbolic), with or without re-addressing, by both routes; the tampered entry must be absent at quiescence, held entries intact, and the original still acceptable.",
+        "design_ref": "DESIGN.md §2 C04",
+        "note": "Trusted: perfect hashing/signatures, gosym. Bounds: one tampered entry, 9 field selectors x re-address x route.",
+    },
     "C10": {
         "text": "Bounded model checking of the real Sync/replicator/main-loop/Join code under adversarial announcements: each class of rejected head is built with the real ipfs-log (perfect symbolic signatures), mixed with a valid head at each position, and the valid head is re-announced; the replica's log is inspected at quiescence.",
         "design_ref": "DESIGN.md §2 C10",
